@@ -406,7 +406,8 @@ class GeoBoxBase:
 
         assert self._crs is not None
         if g.crs != self._crs:
-            g = g.to_crs(self._crs)
+            # densify: straight edges are curves in the other projection
+            g = g.to_crs(self._crs, resolution="auto")
         g = g.transform(self.wld2pix)
         return Geometry(g.geom, crs=None)
 
@@ -1456,7 +1457,8 @@ class GeoboxTiles:
             poly = query
 
         if target_crs is not None and poly.crs != target_crs:
-            poly = poly.to_crs(target_crs, check_and_fix=True)
+            # densify: straight edges are curves in the other projection
+            poly = poly.to_crs(target_crs, resolution="auto", check_and_fix=True)
 
         yy, xx = self.range_from_bbox(poly.boundingbox)
         for idx in itertools.product(yy, xx):
